@@ -701,6 +701,38 @@ Qed.
 Definition op_ok (o : op) : Prop :=
   match o with OJoin sid _ _ => 0 < sid <= max_idN | _ => True end.
 
+Lemma join_added_wf : forall r sid l h k,
+    realm_wf r -> ids_below k r -> 0 < sid <= max_idN -> lookup r sid = None ->
+    let r1 := r_set_clients r (r_clients r ++ [mkSession sid l h (join_details sid l h) 0]) in
+    realm_wf r1 /\ ids_below k r1.
+Proof.
+  intros r sid l h k W I Hsid Hl.
+  assert (Hm : sid <> meta_id).
+  { intros ->. unfold lookup in Hl. rewrite N.eqb_refl in Hl. discriminate. }
+  assert (Hf : find_session (r_clients r) sid = None).
+  { unfold lookup in Hl. destruct (N.eqb_spec sid meta_id); [contradiction|exact Hl]. }
+  set (s := mkSession sid l h (join_details sid l h) 0).
+  intros r1. subst r1. set (r1 := r_set_clients r (r_clients r ++ [s])).
+  assert (Hle : lookup_le (lookup r) (lookup r1)).
+  { intros x sx E. exists sx. split; [|lia]. unfold lookup in *. cbn [r1 r_meta r_clients r_set_clients].
+    destruct (N.eqb x meta_id); [exact E|]. rewrite find_session_app, E. reflexivity. }
+  assert (Hc : forall x, client r x -> client r1 x).
+  { intros x C. unfold client in *. cbn [r1 r_clients r_set_clients]. rewrite find_session_app.
+    destruct (find_session (r_clients r) x); [discriminate|contradiction]. }
+  split.
+  - destruct W as [A B C D E F' G' H' I' J' K' L']. constructor; cbn [r1 r_set_clients r_meta r_clients r_broker r_dealer r_testaments r_cfg]; auto.
+    + rewrite find_session_app, B. cbn [s s_id]. destruct (N.eqb_spec sid meta_id); [contradiction|reflexivity].
+    + intros x Hx. apply in_app_or in Hx. destruct Hx as [Hx|[<-|[]]]; [auto|exact Hsid].
+    + eapply dealer_wf_lookup_le; [exact Hle|exact E].
+  - destruct I as (I1 & I2 & I3). repeat split; auto.
+    intros x sx E. unfold lookup in E. cbn [r1 r_meta r_clients r_set_clients] in E.
+    destruct (N.eqb x meta_id) eqn:Ex.
+    + apply (I3 x sx). unfold lookup. now rewrite Ex.
+    + rewrite find_session_app in E. destruct (find_session (r_clients r) x) as [y|] eqn:Fy.
+      * inversion E; subst. apply (I3 x sx). unfold lookup. now rewrite Ex.
+      * destruct (N.eqb (s_id s) x); inversion E; subst. cbn. lia.
+Qed.
+
 Lemma join_wf : forall r sid l h k,
     realm_wf r -> ids_below k r -> 0 < sid <= max_idN ->
     realm_wf (fst (join r sid l h)) /\ ids_below k (fst (join r sid l h)).
@@ -709,32 +741,9 @@ Proof.
   destruct (negb (has_role h) || is_some (lookup r sid)) eqn:G; [auto|].
   apply orb_false_iff in G. destruct G as [_ G].
   assert (Hl : lookup r sid = None) by (destruct (lookup r sid); [discriminate|reflexivity]).
-  assert (Hm : sid <> meta_id).
-  { intros ->. unfold lookup in Hl. rewrite N.eqb_refl in Hl. discriminate. }
-  assert (Hf : find_session (r_clients r) sid = None).
-  { unfold lookup in Hl. destruct (N.eqb_spec sid meta_id); [contradiction|exact Hl]. }
-  set (s := mkSession sid l h (join_details sid l h) 0).
-  set (r1 := r_set_clients r (r_clients r ++ [s])).
-  assert (Hle : lookup_le (lookup r) (lookup r1)).
-  { intros x sx E. exists sx. split; [|lia]. unfold lookup in *. cbn [r1 r_meta r_clients r_set_clients].
-    destruct (N.eqb x meta_id); [exact E|]. rewrite find_session_app, E. reflexivity. }
-  assert (Hc : forall x, client r x -> client r1 x).
-  { intros x C. unfold client in *. cbn [r1 r_clients r_set_clients]. rewrite find_session_app.
-    destruct (find_session (r_clients r) x); [discriminate|contradiction]. }
-  assert (W1 : realm_wf r1).
-  { destruct W as [A B C D E F' G' H' I' J' K' L']. constructor; cbn [r1 r_set_clients r_meta r_clients r_broker r_dealer r_testaments r_cfg]; auto.
-    - rewrite find_session_app, B. cbn [s s_id]. destruct (N.eqb_spec sid meta_id); [contradiction|reflexivity].
-    - intros x Hx. apply in_app_or in Hx. destruct Hx as [Hx|[<-|[]]]; [auto|exact Hsid].
-    - eapply dealer_wf_lookup_le; [exact Hle|exact E]. }
-  assert (I1 : ids_below k r1).
-  { destruct I as (I1 & I2 & I3). repeat split; auto.
-    intros x sx E. unfold lookup in E. cbn [r1 r_meta r_clients r_set_clients] in E.
-    destruct (N.eqb x meta_id) eqn:Ex.
-    - apply (I3 x sx). unfold lookup. now rewrite Ex.
-    - rewrite find_session_app in E. destruct (find_session (r_clients r) x) as [y|] eqn:Fy.
-      + inversion E; subst. apply (I3 x sx). unfold lookup. now rewrite Ex.
-      + destruct (N.eqb (s_id s) x); inversion E; subst. cbn. lia. }
-  change (r_cfg r) with (r_cfg r1). apply meta_publish_wf; assumption.
+  destruct (join_added_wf r sid l h k W I Hsid Hl) as [W1 I1]. cbv zeta in W1, I1.
+  match goal with |- context [meta_publish ?R ?M] => change (r_cfg r) with (r_cfg R) end.
+  apply meta_publish_wf; assumption.
 Qed.
 
 (** ** Replacing a session record *)
@@ -1007,10 +1016,24 @@ Qed.
 Lemma idgen_next_le : forall n, n < max_idN -> n <= idgen_next n <= n + 1.
 Proof. intros n H. rewrite idgen_next_nowrap by exact H. lia. Qed.
 
+Lemma nps_frame : forall d cid,
+    d_callee_regs (no_proc_state d cid) = d_callee_regs d /\ d_idgen (no_proc_state d cid) = d_idgen d /\
+    d_regs (no_proc_state d cid) = d_regs d /\
+    (forall c x, cget (d_calls (no_proc_state d cid)) c = Some x -> cget (d_calls d) c = Some x).
+Proof.
+  intros d cid. unfold no_proc_state.
+  destruct (cget (d_bycall d) cid) as [k|]; [|auto].
+  destruct (cget (d_invs d) k) as [inv|];
+    rewrite ?drop_call_cr, ?drop_call_idgen, ?drop_call_regs, ?ct_callee_regs, ?ct_idgen, ?ct_regs;
+    (repeat split; try reflexivity); intros c x; rewrite dc_calls, ?ct_calls, cget_cdel;
+    destruct (pair_eqb c cid); [discriminate|auto|discriminate|auto].
+Qed.
+
 Lemma call_facts : forall cfg lk now d caller req opts proc args kw oracle,
     lookup_ok lk -> nowrap lk ->
     match call cfg lk now d caller req opts proc args kw oracle with
-    | CallRefused d' o => d_callee_regs d' = d_callee_regs d /\ d_idgen d' = d_idgen d /\ d_calls d' = d_calls d
+    | CallRefused d' o => d_callee_regs d' = d_callee_regs d /\ d_idgen d' = d_idgen d /\
+                          (forall c x, cget (d_calls d') c = Some x -> cget (d_calls d) c = Some x)
     | CallAbort _ => True
     | CallInvoked d' callee' o =>
         (exists callee0, lk (s_id callee') = Some callee0 /\
@@ -1018,19 +1041,21 @@ Lemma call_facts : forall cfg lk now d caller req opts proc args kw oracle,
         d_callee_regs d' = d_callee_regs d /\ d_idgen d' = d_idgen d /\
         (forall c x, cget (d_calls d') c = Some x -> c = (s_id caller, req) \/ cget (d_calls d) c = Some x) /\
         exists rcv invid regid det, o = [(rcv, RInvocation invid regid det args kw)] /\
-          (dget det "caller" = None \/ dget det "caller" = Some (vid (s_id caller)))
+          (dget det "caller" = None \/ dget det "caller" = Some (vid (s_id caller))) /\ lk rcv <> None
     end.
 Proof.
   intros cfg lk now d caller req opts proc args kw oracle LOK NW.
   pose proof (call_cases cfg lk now d caller req opts proc args kw oracle) as H.
   inversion H; subst; auto;
-    try (unfold call_d0; cbn [d_callee_regs d_idgen d_calls d_set_regs]; auto; fail).
+    try (unfold call_d0; cbn [d_callee_regs d_idgen d_calls d_set_regs]; auto; fail);
+    try (split; [reflexivity|split; [reflexivity|auto]]; fail);
+    try (destruct (nps_frame d (s_id caller, req)) as (N1 & N2 & N3 & N4); auto; fail).
   - (* chunk *)
     match goal with Hl : lk (inv_callee inv) = Some callee |- _ => rename Hl into Hlk end.
     split; [exists callee; rewrite (LOK _ _ Hlk); split; [exact Hlk|lia]|].
     rewrite chs_callee_regs, chs_idgen. split; [reflexivity|]. split; [reflexivity|].
     split; [intros c x; rewrite chs_calls; auto|].
-    do 4 eexists. split; [reflexivity|]. left. reflexivity.
+    do 4 eexists. split; [reflexivity|]. split; [left; reflexivity|]. rewrite (LOK _ _ Hlk). congruence.
   - (* first *)
     match goal with Hl : lk callee_id = Some callee |- _ => rename Hl into Hlk end.
     cbn [set_invgen s_id s_invgen].
@@ -1038,7 +1063,7 @@ Proof.
     rewrite cfs_callee_regs, cfs_idgen. split; [reflexivity|]. split; [reflexivity|].
     split.
     + intros c x. rewrite cfs_calls, cget_cset. destruct (pair_eqb_spec c (s_id caller, req)); auto.
-    + do 4 eexists. split; [reflexivity|]. apply call_details_caller.
+    + do 4 eexists. split; [reflexivity|]. split; [apply call_details_caller|congruence].
 Qed.
 
 (** ** Timers, CANCEL *)
